@@ -13,7 +13,11 @@
 //   ftp  - ftp (its users map is fixed in the code); command lines (USER/PASS attempts,
 //          probes before and after, a sweep over every name of the commands table with and
 //          without argument); observed: reply codes per line, ftp.command events, the
-//          service root before and after.
+//          service root before and after;
+//   ftp-burst - the same service with a pipelining client: 20-40 control lines followed by
+//          USER/PASS attempts and probes written in ONE segment, the recording channel
+//          deliberately slow (1-2 ms per event) so that the event pump lags behind the command
+//          loop; every line must still yield exactly one ftp.command event, in order.
 package main
 
 import (
@@ -21,6 +25,7 @@ import (
 	"io"
 	"log"
 	"strings"
+	"time"
 
 	"verif/harness/hx"
 )
@@ -32,6 +37,8 @@ type Input struct {
 	Conns     []SConn  `json:"conns,omitempty"`
 	Reqs      []LReq   `json:"reqs,omitempty"`
 	Lines     []string `json:"lines,omitempty"`
+	Burst     bool     `json:"burst,omitempty"`   // ftp: all lines in one segment
+	SlowUs    int      `json:"slow_us,omitempty"` // ftp: the recording channel sleeps this long per event
 }
 
 var users = []string{"root", "admin", "guest", ""}
@@ -373,6 +380,50 @@ func genFTP(r *hx.Rand) Input {
 	return in
 }
 
+// ---- ftp, pipelined: 20-40 control lines and the USER/PASS attempts in one segment, slow pusher ----
+
+// commands that answer with exactly one coded reply line, logged in or not
+var burstFillers = []string{"NOOP", "SYST", "FEAT", "ALLO", "PWD", "TYPE I", "MODE S", "STRU F", "HELP", "noop", "APPE", "REST 0"}
+var burstProbes = []string{"PWD", "MKD /m1", "MKD /m2", "DELE /f.txt", "SIZE /f.txt", "SIZE /nofile", "CWD /sub", "RMD /sub", "CDUP", "RNFR /f.txt", "DELE /nofile"}
+
+func genFTPBurst(r *hx.Rand) Input {
+	in := Input{Svc: "ftp", Burst: true, SlowUs: r.PickInt([]int{1000, 1500, 2000})}
+	for n := r.Range(20, 40); n > 0; n-- {
+		in.Lines = append(in.Lines, r.PickStr(burstFillers))
+	}
+	for a := r.Range(1, 3); a > 0; a-- {
+		u, p := r.PickStr(ftpUsers), r.PickStr(ftpPws)
+		if r.Chance(1, 2) {
+			u, p = "anonymous", "anonymous"
+		}
+		in.Lines = append(in.Lines, "USER "+u)
+		for k := r.Range(0, 2); k > 0; k-- {
+			in.Lines = append(in.Lines, r.PickStr(burstFillers))
+		}
+		in.Lines = append(in.Lines, "PASS "+p)
+		for k := r.Range(0, 3); k > 0; k-- {
+			in.Lines = append(in.Lines, r.PickStr(burstProbes))
+		}
+	}
+	return in
+}
+
+func ftpBurstCorpus() []Input {
+	var out []Input
+	mk := func(n int, tail ...string) Input {
+		in := Input{Svc: "ftp", Burst: true, SlowUs: 1500}
+		for i := 0; i < n; i++ {
+			in.Lines = append(in.Lines, "NOOP")
+		}
+		in.Lines = append(in.Lines, tail...)
+		return in
+	}
+	out = append(out, mk(20, "USER anonymous", "PASS anonymous"))
+	out = append(out, mk(30, "USER root", "PASS root", "USER admin", "PASS 123456", "USER anonymous", "PASS anonymous", "MKD /m1", "PWD"))
+	out = append(out, mk(40, "USER guest", "PASS guest", "DELE /f.txt"))
+	return out
+}
+
 func ftpCorpus(tier string) []Input {
 	var out []Input
 	// sweep: every command of the table, without and with an argument, nobody logged in;
@@ -516,7 +567,10 @@ func runCase(id int, in Input) hx.Case {
 		for i, l := range in.Lines {
 			lines[i] = l + "\r\n"
 		}
-		ob, crash := runFTP(lines)
+		if in.Burst {
+			c.Kind = "ftp-burst"
+		}
+		ob, crash := runFTP(lines, in.Burst, time.Duration(in.SlowUs)*time.Microsecond)
 		c.Obs, c.Crash = ob, crash
 		c.Coq = coqFTP(id, in, ob)
 	default:
@@ -569,6 +623,10 @@ func main() {
 			}
 		case "ftp":
 			dist["ftp-lines"] += len(in.Lines)
+			if in.Burst {
+				dist["ftp-burst-sessions"]++
+				dist["ftp-burst-lines"] += len(in.Lines)
+			}
 			if ob, ok := c.Obs.(FObs); ok {
 				for _, cs := range ob.Codes {
 					for _, x := range cs {
@@ -600,12 +658,15 @@ func main() {
 	for _, in := range ftpCorpus(o.Tier) {
 		add(in)
 	}
-	nS, nL, nF := 220, 330, 300
+	for _, in := range ftpBurstCorpus() {
+		add(in)
+	}
+	nS, nL, nF, nB := 220, 330, 300, 12
 	switch o.Tier {
 	case "thorough":
-		nS, nL, nF = 2000, 3500, 3000
+		nS, nL, nF, nB = 2000, 3500, 3000, 100
 	case "search":
-		nS, nL, nF = 600, 1200, 1000
+		nS, nL, nF, nB = 600, 1200, 1000, 40
 	}
 	for i := 0; i < nS; i++ {
 		add(genSSH(r))
@@ -615,6 +676,9 @@ func main() {
 	}
 	for i := 0; i < nF; i++ {
 		add(genFTP(r))
+	}
+	for i := 0; i < nB; i++ {
+		add(genFTPBurst(r))
 	}
 	hx.Write(o, "C12", "auth", header, "case", cases, dist, map[string]interface{}{"ftp_root": ftpRoot()}, 400)
 }
